@@ -137,10 +137,14 @@ func GenC07(seed, index uint64) *Workload {
 	for i := 0; i < nexpr; i++ {
 		w.Exprs = append(w.Exprs, specOf(GenExpr(r.Fork(100+uint64(i)), bias)))
 	}
-	if r.P(1, 60) {
+	if r.P(1, 30) {
 		// big data: shared big documents, expressions over their long arrays
-		// (one of them with a wrong-typed element near the end of its long arrays)
+		// (one of them with a wrong-typed element near the end of its long arrays);
+		// two thirds of these runs use hundreds instead of thousands of elements
 		w.Docs = []string{GenBigDoc(r.Fork(7), "T0!"), GenBigDoc(r.Fork(8), "T1")}
+		if r.P(2, 3) {
+			w.Docs = []string{GenMediumDoc(r.Fork(7), "T0!"), GenMediumDoc(r.Fork(8), "T1")}
+		}
 		ndocs = 2
 		w.Exprs = nil
 		nexpr = 1 + r.Intn(3)
@@ -315,6 +319,19 @@ func GenC06(seed, index uint64, maxOps int) *Workload {
 			w.Exprs = append(w.Exprs, specOf(GenFamilyExpr(r.Fork(400+uint64(i)), fam)))
 		}
 	}
+	twins := r.P(1, 40)
+	if twins {
+		// two texts that differ only in white space INSIDE a literal or a quoted
+		// identifier, used one after the other through every API path
+		pair := pick(r, [][2]string{{`'it\'s  here'`, `'it\'s here'`}, {`'a  b'`, `'a b'`}, {"'a\tb'", `'a b'`}, {`"k  1"`, `"k 1"`}, {"split(s, '\t')", `split(s, ' ')`}, {"`\"x  y\"`", "`\"x y\"`"}})
+		wrap := pick(r, []string{"%s", "[%s, tag]", "{\"v\": %s}", "not_null(%s, n)"})
+		w.Exprs = nil
+		for _, t := range pair {
+			txt := strings.Replace(wrap, "%s", t, 1)
+			w.Exprs = append(w.Exprs, ExprSpec{Text: txt, Tree: &Expr{K: KRaw, S: txt}})
+		}
+		nexpr = 2
+	}
 	nexpr = addTextVariants(r, w, nexpr)
 	nops := 4 + r.Intn(maxOps-3)
 	if r.P(1, 60) {
@@ -353,7 +370,7 @@ func GenC06(seed, index uint64, maxOps int) *Workload {
 			op.D = r.Intn(docs)
 			nresults++
 			lastSlot, lastDoc = op.Slot, op.D
-		case c <= 13:
+		case c <= 13 || (twins && c <= 17):
 			op.K = "search"
 			op.E = r.Intn(nexpr)
 			op.D = r.Intn(docs)
